@@ -1,6 +1,6 @@
 """Manifest data that is not per-check: hook commits and reasons for unclaimed properties."""
 
-HOOK_COMMITS = []
+HOOK_COMMITS = ["2556ea2"]
 
 # property id -> reason it is not claimed (anything unlisted and unbuilt gets a default text)
 NOT_APPLICABLE = {}
